@@ -468,9 +468,40 @@ def fuzz_one(data, ctx):
     return '?' in sent and '=' in sent
 
 
+ROUNDTRIP_VALUES = VALUES + ['/search?q=tea', '<b>hi</b>', '~/notes', 'a>b', 'é?', '中~', {'next': '/a?b=c&d=~e'}, ['?', '>', '~'],
+                             'https://e.test/cb?code=~x>y&state=?'] + \
+    [('x' * pad) + sym for pad in range(6) for sym in ('?', '>', '~', '?>~', '\xff', '\xfb\xef')]
+
+
+def run_roundtrip(ctx):
+    """complete: every key x every value of the catalogue (all three byte alignments of the characters whose base64 symbols
+    differ between alphabets) is stored by one request and must be presented, exactly, to the next"""
+    ctx.exhaustive = True
+    for expiry in ('session', 100):
+        for key in KEYS:
+            for value in ROUNDTRIP_VALUES:
+                case = ['roundtrip', expiry, key, value]
+                ctx.case(case)
+                ctx.current = case
+                sim = CookieSim(ctx, {'expiry': expiry})
+                try:
+                    sim.step(['req', 0, [['set', key, value]]])
+                    sim.step(['req', 0, [['set', 'zq_second', [value, key]]]])
+                    sim.step(['req', 0, []])
+                    ctx.nt(case, sample=False)
+                except Exception as e:
+                    ctx.classify_exc(e, case, 'roundtrip')
+                    if len(ctx.violations) > 10:
+                        return
+                finally:
+                    sim.close()
+    ctx.event('roundtrip-catalogue-complete')
+
+
 def shards(tier, seed):
     q = tier == 'quick'
     out = [{'part': 'machine', 'n': 30 if q else 2500, 'steps': 30} for _ in range(10)]
+    out.append({'part': 'roundtrip'})
     out += [{'part': 'header', 'n': 250 if q else 20000} for _ in range(6 if q else 5)]
     if not q:
         out.append({'part': 'atheris', 'runs': 400000})
@@ -478,7 +509,9 @@ def shards(tier, seed):
 
 
 def run_shard(spec, ctx):
-    if spec['part'] == 'machine':
+    if spec['part'] == 'roundtrip':
+        run_roundtrip(ctx)
+    elif spec['part'] == 'machine':
         ctx.machine(machine(), spec['n'], spec['steps'], kind='history')
     elif spec['part'] == 'atheris':
         from vlib.shard import run_atheris
@@ -494,6 +527,16 @@ def replay(case, kind, ctx):
             fuzz_one(case['bytes'].encode('latin1'), ctx)
         finally:
             _fz['sim'].close()
+        return
+    if kind == 'roundtrip' or (case and case[0] == 'roundtrip'):
+        _, expiry, key, value = case
+        sim = CookieSim(ctx, {'expiry': expiry})
+        try:
+            sim.step(['req', 0, [['set', key, value]]])
+            sim.step(['req', 0, [['set', 'zq_second', [value, key]]]])
+            sim.step(['req', 0, []])
+        finally:
+            sim.close()
         return
     if kind == 'header' or (case and case[0] in ('session', 100)):
         header_body(case, ctx)
